@@ -50,13 +50,17 @@ def worker_init():
 def plan(tier, seed):
     out = []
     if tier == "quick":
-        ppairs = spaces.shape_pairs(4, 3)
-        lpairs = spaces.shape_pairs(3, 2)
-        upairs = spaces.shape_pairs(3, 3)
+        # few object nodes on deep species trees: every (node, left child, right child) placement over all species
+        # trees with <= 6 leaves (long vertical branches, transfers across distant clades), then wider objects
+        ppairs = spaces.shape_pairs(4, 3) + spaces.shape_pairs(2, 6, min_sp=4) + spaces.shape_pairs(3, 5, min_obj=3, min_sp=4)
+        lpairs = spaces.shape_pairs(3, 2) + spaces.shape_pairs(2, 4, min_sp=3)
+        upairs = spaces.shape_pairs(3, 3) + spaces.shape_pairs(2, 4, min_sp=4)
     else:
-        ppairs = spaces.shape_pairs(4, 4) + spaces.shape_pairs(5, 3, min_obj=5)
-        lpairs = spaces.shape_pairs(3, 3) + spaces.shape_pairs(4, 2, min_obj=4)
-        upairs = spaces.shape_pairs(3, 3) + spaces.shape_pairs(4, 2, min_obj=4)
+        ppairs = (spaces.shape_pairs(4, 4) + spaces.shape_pairs(5, 3, min_obj=5) + spaces.shape_pairs(2, 7, min_sp=5)
+                  + spaces.shape_pairs(3, 6, min_obj=3, min_sp=5) + spaces.shape_pairs(4, 5, min_obj=4, min_sp=5))
+        lpairs = spaces.shape_pairs(3, 3) + spaces.shape_pairs(4, 2, min_obj=4) + spaces.shape_pairs(2, 6, min_sp=4)
+        upairs = spaces.shape_pairs(3, 3) + spaces.shape_pairs(4, 2, min_obj=4) + spaces.shape_pairs(2, 6, min_sp=4) \
+            + spaces.shape_pairs(3, 4, min_obj=3, min_sp=4)
     for osh, ssh in ppairs:
         out.append({"slice": "unlabelled", "mode": "plain", "osh": osh, "ssh": ssh})
     for osh, ssh in lpairs:
